@@ -188,6 +188,69 @@ pub mod standin {
     }
 }
 
+/// stand-in for the analyzer's `HashMap` alias (fxhash::FxHashMap) inside the extracted RangeTable: a finite map as an association list;
+/// only `entry(k).and_modify(f).or_insert(v)`, `get(&k)` and Default/Clone/Debug are needed. (hashbrown itself does not finish in CBMC.)
+pub mod vpmap {
+    #[derive(Clone, Debug)]
+    pub struct HashMap<K, V> {
+        pub slots: Vec<(K, V)>,
+    }
+    impl<K, V> Default for HashMap<K, V> {
+        fn default() -> Self {
+            Self { slots: Vec::new() }
+        }
+    }
+    pub enum Entry<'a, K, V> {
+        Occupied(&'a mut V),
+        Vacant(&'a mut Vec<(K, V)>, K),
+    }
+    impl<K: PartialEq, V> HashMap<K, V> {
+        fn find(&self, k: &K) -> Option<usize> {
+            let mut i = 0;
+            while i < self.slots.len() {
+                if self.slots[i].0 == *k {
+                    return Some(i);
+                }
+                i += 1;
+            }
+            None
+        }
+        pub fn entry(&mut self, k: K) -> Entry<'_, K, V> {
+            match self.find(&k) {
+                Some(i) => Entry::Occupied(&mut self.slots[i].1),
+                None => Entry::Vacant(&mut self.slots, k),
+            }
+        }
+        pub fn get(&self, k: &K) -> Option<&V> {
+            match self.find(k) {
+                Some(i) => Some(&self.slots[i].1),
+                None => None,
+            }
+        }
+    }
+    impl<'a, K, V> Entry<'a, K, V> {
+        pub fn and_modify<F: FnOnce(&mut V)>(self, f: F) -> Self {
+            match self {
+                Entry::Occupied(v) => {
+                    f(v);
+                    Entry::Occupied(v)
+                }
+                e => e,
+            }
+        }
+        pub fn or_insert(self, default: V) -> &'a mut V {
+            match self {
+                Entry::Occupied(v) => v,
+                Entry::Vacant(slots, k) => {
+                    slots.push((k, default));
+                    let n = slots.len() - 1;
+                    &mut slots[n].1
+                }
+            }
+        }
+    }
+}
+
 // ---------------------------------------------------------------------------------------------------------
 // (b) model, from the property statement: a signal is either domain-less (constants, parameters) or lives in
 // exactly one clock domain; domains are the module's unnamed default domain `'_` or a named one; how a named
@@ -674,35 +737,31 @@ pub mod harness {
             assert!(!r.include(PathId(path), r.beg.line, column), "a one-line range covers positions outside its columns");
         }
     }
-    /// unsafe_table::contains is RangeTable::contains on a thread-local table. For a table built with the REAL insert (<= 2 closed ranges,
-    /// bounded) and <= 1 open block: contains(token, v) <=> token is a File token inside some inserted range of its file carrying v, or an
-    /// open block carries v
-    #[vp_bounded]
-    pub fn range_table_contains_iff_inside_some_range() {
+    /// unsafe_table::contains is RangeTable::contains on a thread-local table. For a table built with the REAL insert (n <= 2 closed ranges,
+    /// bounded) and at most one open block (begin without end): contains(token, v) <=> token is a File token inside some inserted range of
+    /// its file carrying v, or an open block carries v. n and the open-block shape are concrete per case; all 9 cases are run.
+    fn range_table_case(n: u8, open: u8, use_get: bool) {
         let mut t: RangeTable<Unsafe> = RangeTable::default();
-        // file ids are drawn from {3, 5} (ranges) and {3, 5, 9} (queried token): hashing symbolic keys does not finish in CBMC
-        let sel: [bool; 3] = kani::any();
-        let (p1, p2): (usize, usize) = (3, if sel[0] { 3 } else { 5 });
+        let (p1, p2): (usize, usize) = (kani::any(), kani::any());
         let mk = |p: usize, l: u32, c: u32| Token { id: TokenId(0), text: StrId(0), line: l, column: c, length: 1, pos: 0, source: TokenSource::File { path: PathId(p), text: TextId(0) } };
         let pos: [u32; 8] = kani::any();
         let r1 = TokenRange { beg: mk(p1, pos[0], pos[1]), end: mk(p1, pos[2], pos[3]) };
         let r2 = TokenRange { beg: mk(p2, pos[4], pos[5]), end: mk(p2, pos[6], pos[7]) };
         kani::assume(pos_le(pos[0], pos[1], pos[2], pos[3]) && pos_le(pos[4], pos[5], pos[6], pos[7]));
-        let n: u8 = kani::any();
-        kani::assume(n <= 2);
         if n >= 1 {
             t.insert(r1, Unsafe::Cdc);
         }
         if n >= 2 {
-            t.insert(r2, Unsafe::Cdc);
+            // recorded the way the walker does it: begin at the first token, end at the last
+            t.begin(r2.beg, Some(Unsafe::Cdc));
+            t.end(r2.end);
         }
-        let open: u8 = kani::any();
-        match open & 3 {
+        match open {
             0 => {}
             1 => t.begin(mk(p1, 0, 0), None),
             _ => t.begin(mk(p1, 0, 0), Some(Unsafe::Cdc)),
         }
-        let qp: usize = if sel[1] { 3 } else if sel[2] { 5 } else { 9 };
+        let qp: usize = kani::any();
         let qk: u8 = kani::any();
         let qsrc = match qk & 3 {
             0 => TokenSource::File { path: PathId(qp), text: TextId(1) },
@@ -715,8 +774,30 @@ pub mod harness {
             TokenSource::File { path, .. } => in_file(&r.beg.source, path) && pos_le(r.beg.line, r.beg.column, q.line, q.column) && pos_le(q.line, q.column, r.end.line, r.end.column),
             _ => false,
         };
-        let want = (n >= 1 && inside(&r1)) || (n >= 2 && inside(&r2)) || (open & 3) >= 2;
-        assert!(t.contains(&q, &Unsafe::Cdc) == want, "contains differs from: inside some recorded block (or a block is still open)");
+        let count = (n >= 1 && inside(&r1)) as usize + (n >= 2 && inside(&r2)) as usize + (open >= 2) as usize;
+        if use_get {
+            // `contains` is `self.get(token).contains(value)`; `get` returns one entry per enclosing recorded block plus one per open block
+            assert!(t.get(&q).len() == count, "get differs from: one entry per enclosing recorded block (+ open blocks)");
+        } else {
+            assert!(t.contains(&q, &Unsafe::Cdc) == (count > 0), "contains differs from: inside some recorded block (or a block is still open)");
+        }
+    }
+    fn range_table_cases(n: u8, use_get: bool) {
+        range_table_case(n, 0, use_get);
+        range_table_case(n, 1, use_get);
+        range_table_case(n, 2, use_get);
+    }
+    #[vp_bounded]
+    pub fn range_table_contains_iff_inside_some_range_0() {
+        range_table_cases(0, false);
+    }
+    #[vp_bounded]
+    pub fn range_table_contains_iff_inside_some_range_1() {
+        range_table_cases(1, false);
+    }
+    #[vp_bounded]
+    pub fn range_table_get_counts_enclosing_ranges_2() {
+        range_table_cases(2, true);
     }
 
     // ---- canaries (must FAIL) ---------------------------------------------------------------------------------
